@@ -110,7 +110,7 @@ def _kf05(entry):
     """piecewise-parsed schema: the outer schema keeps bare references to the separately
     parsed types, so the container header / canonical form are not self-contained"""
     c = entry["case"]
-    if c.get("form") != "piecewise":
+    if not str(c.get("form", "")).startswith("piecewise"):
         return False
     if c.get("operation") == "container":
         return "UnknownType" in str(c.get("_b"))
